@@ -532,6 +532,7 @@ func init() {
 		Assumptions: []string{"overload functions have no side effects beyond the call log", "filter/map results are not used as overload operands (their dynamic type differs from the static one: recorded under C03)"},
 		Phases: []runner.Phase{
 			{Name: "bad-tables", Serial: true, N: func(string) uint64 { return 1 }, Run: c17BadTables},
+			{Name: "fixed-pairs", Serial: true, N: func(string) uint64 { return 1 }, Run: c17FixedPairs},
 			{Name: "equivalence", N: func(tier string) uint64 {
 				if tier == "thorough" {
 					return 1500000
@@ -682,5 +683,54 @@ func c17BadTables(c *runner.Ctx, idx uint64) {
 	c.Eval(1)
 	if co.Err == nil {
 		c.Violate("bad-table-accepted:second candidate missing", "Compile accepted a table whose second candidate is missing", map[string]interface{}{"source": "M1 + M2"})
+	}
+}
+
+// c17FixedPairs: operator form / explicit-call form pairs for positions the
+// term generator does not build (arguments of calls that are resolved only at
+// run time or not at all).
+func c17FixedPairs(c *runner.Ctx, idx uint64) {
+	pairs := [][2]string{
+		{"Missing?.x?.test(M1 + M2)", "Missing?.x?.test(AddMoney(M1, M2))"},
+		{"Missing?.test(Pick(M1 + M2), A)", "Missing?.test(Pick(AddMoney(M1, M2)), A)"},
+		{"AnyPick(M1 + M2).Cents", "AnyPick(AddMoney(M1, M2)).Cents"},
+		{"ShowAll(M1 + M2, M1 - M2)", "ShowAll(AddMoney(M1, M2), SubMoney(M1, M2))"},
+		{"[M1 + M2][0].Cents", "[AddMoney(M1, M2)][0].Cents"},
+		{"{\"k\": M1 + M2}.k.Cents", "{\"k\": AddMoney(M1, M2)}.k.Cents"},
+	}
+	sample := newOpEnv(runner.NewRng(1))
+	tb := c17Tables[0]
+	for _, pr := range pairs {
+		c.Begin(pr[0])
+		opts := append([]expr.Option{expr.Env(*sample)}, tb.options()...)
+		p1, co1 := SafeCompile(pr[0], opts...)
+		p2, co2 := SafeCompile(pr[1], opts...)
+		c.Eval(2)
+		cas := map[string]interface{}{"operator_form": pr[0], "explicit_form": pr[1], "operator_compile": co1.String(), "explicit_compile": co2.String()}
+		if co1.Panic != nil || co2.Panic != nil {
+			c.Violate("compile-panic", fmt.Sprint(co1.Panic, co2.Panic), cas)
+			continue
+		}
+		if co2.Err != nil {
+			c.Count("explicit_form_rejected", 1)
+			continue
+		}
+		if co1.Err != nil {
+			c.Violate("operator-form-rejected:"+errKeyOf(co1.Err), "operator form rejected although the explicit-call form compiles: "+firstLine(co1.Err.Error()), cas)
+			continue
+		}
+		c.Distinct("pair|" + pr[0])
+		for k := uint64(0); k < 3; k++ {
+			e1, e2 := newOpEnv(runner.NewRng(c.Seed+k)), newOpEnv(runner.NewRng(c.Seed+k))
+			o1, o2 := SafeRun(p1, *e1), SafeRun(p2, *e2)
+			c.Eval(2)
+			c.Count("forms_compared", 1)
+			l1, l2 := strings.Join(e1.log.Calls, ";"), strings.Join(e2.log.Calls, ";")
+			if o1.Panic != nil || o2.Panic != nil || o1.Failed() != o2.Failed() || l1 != l2 || (!o1.Failed() && mon.Canon(o1.Val) != mon.Canon(o2.Val)) {
+				cas["operator_result"], cas["explicit_result"], cas["operator_calls"], cas["explicit_calls"] = o1.String(), o2.String(), l1, l2
+				c.Violate("forms-differ:fixed-pair", fmt.Sprintf("operator form %s [%s], explicit form %s [%s]", o1, l1, o2, l2), cas)
+				break
+			}
+		}
 	}
 }
